@@ -254,9 +254,8 @@ Definition render_literal_value (v : sv) : tok :=
 Definition leep_literal (d : dialect) (b : bindparam) (values : list value) : result (list tok) :=
   match values with
   | [] =>
-      if is_tuple_type b then
-        bind (visit_empty_set_op_expr d (type_count b) b.(bp_expand_op)) (fun repl =>
-        Ok ((if d.(d_tuple_in_values) then [TValues] else []) ++ repl))
+      (* (since a8e8272 no "VALUES " before the empty-set expression of a tuple type) *)
+      if is_tuple_type b then visit_empty_set_op_expr d (type_count b) b.(bp_expand_op)
       else visit_empty_set_op_expr d 1 b.(bp_expand_op)
   | _ =>
       if tuple_branch b values then
@@ -716,9 +715,9 @@ Definition empty_ok (d : dialect) (e : inexpr) (vals : list value) : bool :=
   | _ => true
   end.
 
-(* literal rendering: outside the two defective regions
-   (a) empty list for a tuple type on a dialect with tuple_in_values ("VALUES SELECT ..."),
-   (b) tuple values for a NullType parameter (AttributeError) *)
+(* literal rendering: outside the defective region
+   tuple values for a NullType parameter (AttributeError).
+   (The former region "empty list for a tuple type on a dialect with tuple_in_values" - "VALUES SELECT .." -
+   was repaired by commit a8e8272.) *)
 Definition literal_guard (d : dialect) (e : inexpr) (vals : list value) : bool :=
-  negb (is_tuple_type e.(ie_bind) && is_nil vals && d.(d_tuple_in_values))
-  && negb (is_null_type e.(ie_bind) && tuple_branch e.(ie_bind) vals).
+  negb (is_null_type e.(ie_bind) && tuple_branch e.(ie_bind) vals).
